@@ -9,8 +9,13 @@ where
     T: Clone + Copy,
 {
     fn from(sets: &'a Vec<Vec<T>>) -> Self {
-        let final_pos: Vec<usize> = sets.iter().map(|v| v.len() - 1).collect();
-        let pos: Option<Vec<usize>> = Some(vec![0; sets.len()]);
+        let final_pos: Vec<usize> = sets.iter().map(|v| v.len().saturating_sub(1)).collect();
+        // the product over a family that contains an empty set is empty
+        let pos: Option<Vec<usize>> = if sets.iter().any(|v| v.is_empty()) {
+            None
+        } else {
+            Some(vec![0; sets.len()])
+        };
         MultiSet {
             sets,
             pos,
@@ -50,7 +55,8 @@ where
                         }
                     }
                 }
-                if finished {
+                // the product over an empty family is the single empty combination
+                if finished || self.sets.is_empty() {
                     self.pos = None;
                 } else {
                     self.pos = Some(next_pos);
